@@ -73,17 +73,64 @@ struct GroupCfg {
     nctx_reg: usize,
     ndisc: usize,
     reg: bool,
+    /// how many user connect / disconnect callbacks are registered on the builder BEFORE
+    /// `with_peer_registry` (hooks run in registration order)
+    regpos: usize,
     cap: usize,
     /// graceful-drain groups: 'c' = long drain timeout (connections wind down on the cancelled token),
-    /// 'a' = zero drain timeout (stragglers are aborted); '-' otherwise
+    /// 'a' = zero drain timeout (stragglers are aborted), 't' = 30 ms drain timeout; listener groups: 's' =
+    /// `serve_listener_with_shutdown` whose shutdown fires while the connections are being served; '-' otherwise
     mode: char,
+    /// harness-only knobs (one word on the group line, ignored by the model: the property does not depend on them)
+    off: char,           // with_offreader_limit: 'd' not called, '0' unbounded, '1', '4'
+    nerr: usize,         // on_error hooks registered (0 = the default stderr path)
+    static_accept: bool, // embedder loops: WebSocketServer::accept* (associated fns) instead of SharedWebSocketServer::accept*
+    query: u8,           // upgrade request: 0 "?client=7", 1 no query, 2 empty query "?"
+    pr: bool,            // adopt: adopt_upgraded_partially_read with the client's first frame handed over as `buffered`
+    lim: bool,           // with_limits: 1 MiB inbound frame/message limit (else default limits)
 }
 impl GroupCfg {
     fn line(&self) -> String {
-        format!("group {} {} {} {} {} {} {} {} {}", self.g, self.entry.name(), self.nconn, self.nctx, self.ndisc, self.reg as u8, self.cap, self.mode, self.nctx_reg)
+        format!(
+            "group {} {} {} {} {} {} {} {} {} {} o{}e{}s{}q{}p{}l{}",
+            self.g, self.entry.name(), self.nconn, self.nctx, self.ndisc, self.reg as u8, self.cap, self.mode, self.nctx_reg, self.regpos,
+            self.off, self.nerr, self.static_accept as u8, self.query, self.pr as u8, self.lim as u8
+        )
     }
     fn hs(&self) -> bool {
         self.nctx > 0
+    }
+    fn query_str(&self) -> &'static str {
+        match self.query {
+            0 => "?client=7",
+            1 => "",
+            _ => "?",
+        }
+    }
+    fn limits(&self) -> repe::WebSocketLimits {
+        if self.lim {
+            repe::WebSocketLimits::default().with_max_incoming_frame_size(Some(1 << 20)).with_max_incoming_message_size(Some(1 << 20))
+        } else {
+            repe::WebSocketLimits::default()
+        }
+    }
+    fn parse_opts(&mut self, w: &str) {
+        let c: Vec<char> = w.chars().collect();
+        let at = |k: char| c.iter().position(|x| *x == k).and_then(|i| c.get(i + 1)).copied();
+        self.off = at('o').unwrap_or('d');
+        self.nerr = at('e').and_then(|x| x.to_digit(10)).unwrap_or(1) as usize;
+        self.static_accept = at('s') == Some('1');
+        self.query = at('q').and_then(|x| x.to_digit(10)).unwrap_or(0) as u8;
+        self.pr = at('p') == Some('1');
+        self.lim = at('l') == Some('1');
+    }
+    /// user connect callbacks `u < reg_c()` run before the registry's insert
+    fn reg_c(&self) -> usize {
+        self.regpos.min(self.nconn)
+    }
+    /// user disconnect callbacks `u < reg_d()` run before the registry's remove
+    fn reg_d(&self) -> usize {
+        self.regpos.min(self.ndisc)
     }
 }
 
@@ -97,12 +144,24 @@ struct Scen {
     notif: Vec<usize>,
     at: Option<usize>,
     nreq: usize,
+    /// panic payload of cpanic / hpanic: ' ' String (formatted), 's' &'static str, 'n' a non-string value
+    payload: char,
 }
+
+fn scripted_panic(payload: char, what: &str) -> ! {
+    match payload {
+        's' => panic!("scripted panic with a static str payload"),
+        'n' => std::panic::panic_any(0xC15u32),
+        _ => panic!("scripted {what} panic"),
+    }
+}
+
 impl Scen {
     fn line(&self, got: usize) -> String {
         let notif = if self.notif.is_empty() { "-".to_string() } else { self.notif.iter().map(|n| n.to_string()).collect::<Vec<_>>().join(",") };
         let at = self.at.map(|a| a.to_string()).unwrap_or("-".into());
-        format!("scen {} {} {} {} {} {} {}", self.idx, self.phase, self.cause, notif, at, self.nreq, got)
+        let suffix = if self.payload == ' ' { String::new() } else { self.payload.to_string() };
+        format!("scen {} {} {}{} {} {} {} {}", self.idx, self.phase, self.cause, suffix, notif, at, self.nreq, got)
     }
     fn hsfail(&self) -> bool {
         self.cause == "hsfail"
@@ -116,8 +175,10 @@ fn cancel_cause(cfg: &GroupCfg, cause: &str) -> bool {
 
 fn valid(entry: Entry, mode: char, phase: &str, cause: &str) -> bool {
     match cause {
-        "close" | "drop" | "proto" | "protog" | "malformed" | "malformeds" | "malformedl" => true,
-        "hpanic" => matches!(phase, "idle" | "inline" | "parked"),
+        "late" => false,
+        _ if phase == "late" => false,
+        "close" | "drop" | "proto" | "protog" | "malformed" | "malformeds" | "malformedl" | "toobig" => true,
+        "hpanic" => matches!(phase, "idle" | "inline" | "parked" | "parkedfut"),
         "cpanic" => phase == "connecting",
         "cancel" => match entry {
             Entry::Drain => mode == 'c',
@@ -125,7 +186,7 @@ fn valid(entry: Entry, mode: char, phase: &str, cause: &str) -> bool {
             _ => false,
         },
         "abort" => match entry {
-            Entry::Drain => mode == 'a',
+            Entry::Drain => mode == 'a' || mode == 't',
             Entry::Listener => false,
             _ => true,
         },
@@ -228,6 +289,10 @@ impl Shared {
         let reg = self.registry.as_ref().unwrap();
         reg.get(PeerId(id)).is_none() && (0..self.n_user_connect()).all(|u| reg.get_by(Self::key(id, u).as_str()).is_none()) && reg.aliases_for(PeerId(id)).is_empty()
     }
+    /// fully present: the handle and every alias a connect callback registered (those that ran after the insert)
+    fn registry_full(&self, id: u64) -> bool {
+        self.registry_present(id, None) && (self.cfg.reg_c()..self.cfg.nconn + self.cfg.nctx).all(|u| self.registry_present(id, Some(u)))
+    }
 
     /// user connect callback `u` (plain ones first, then the handshake-aware ones)
     fn on_connect(&self, peer: &PeerHandle, u: usize) {
@@ -258,7 +323,7 @@ impl Shared {
         }
         if rec.scen.at == Some(u) && rec.scen.phase == "connecting" {
             if rec.scen.cause == "cpanic" {
-                panic!("scripted connect-callback panic");
+                scripted_panic(rec.scen.payload, "connect-callback");
             }
             let _ = rec.ev_tx.send(Evt::Held);
             rec.hold.wait(WD + WD);
@@ -286,7 +351,17 @@ impl Shared {
             }
             None => "-",
         };
-        let p = if self.registry.is_some() { if self.registry_gone(id.0) { "a" } else { "p" } } else { "-" };
+        let p = if self.registry.is_some() {
+            if self.registry_gone(id.0) {
+                "a"
+            } else if self.registry_full(id.0) {
+                "p"
+            } else {
+                "x"
+            }
+        } else {
+            "-"
+        };
         rec.trace.lock().unwrap().push(format!("d{}:{}:{}", u, x, p));
         if u + 1 == self.cfg.ndisc {
             let _ = rec.ev_tx.send(Evt::Ended);
@@ -299,10 +374,10 @@ fn rec_of_ctx(sh: &Shared, ctx: &CallContext) -> Option<Arc<ConnRec>> {
 }
 
 fn make_router(sh: &Arc<Shared>) -> Router {
-    let (s1, s2, s3) = (sh.clone(), sh.clone(), sh.clone());
+    let (s1, s2, s3, s4) = (sh.clone(), sh.clone(), sh.clone(), sh.clone());
     Router::new()
         .with_json("/echo", |v: Value| Ok(v))
-        .with_json("/panic", |_v: Value| -> Result<Value, (ErrorCode, String)> { panic!("scripted inline handler panic") })
+        .with_json("/panic", |v: Value| -> Result<Value, (ErrorCode, String)> { scripted_panic(v.get("k").and_then(|k| k.as_str()).and_then(|k| k.chars().next()).unwrap_or(' '), "inline handler") })
         .with_json_ctx("/gate", move |ctx: &CallContext, _v: Value| {
             let Some(rec) = rec_of_ctx(&s1, ctx) else { return Ok(json!("unknown-peer")) };
             let _ = rec.ev_tx.send(Evt::InlineEntered);
@@ -318,7 +393,7 @@ fn make_router(sh: &Arc<Shared>) -> Router {
             }
             *rec.inl.lock().unwrap() = Some(ctx.is_cancelled());
             if rec.scen.cause == "hpanic" {
-                panic!("scripted inline handler panic (gated)");
+                scripted_panic(rec.scen.payload, "gated inline handler");
             }
             Ok(json!("gate"))
         })
@@ -338,6 +413,24 @@ fn make_router(sh: &Arc<Shared>) -> Router {
             let _ = rec.ev_tx.send(Evt::ParkDone);
             Ok(json!("park"))
         })
+        .with_json_ctx_blocking("/parkfut", move |ctx: &CallContext, _v: Value| {
+            // parked on the `cancelled()` FUTURE (not polling the flag): must be woken when the connection ends.
+            // The timer arm is polled first, so once it fires the verdict is "not woken" even though a fresh poll
+            // of `cancelled()` would now be ready.
+            let Some(rec) = rec_of_ctx(&s4, ctx) else { return Ok(json!("unknown-peer")) };
+            let _ = rec.ev_tx.send(Evt::Parked);
+            let fut = ctx.cancelled();
+            let woke = tokio::runtime::Handle::current().block_on(async move {
+                tokio::select! {
+                    biased;
+                    _ = tokio::time::sleep(WD * 3) => false,
+                    _ = fut => true,
+                }
+            });
+            *rec.park.lock().unwrap() = Some(woke && ctx.is_cancelled());
+            let _ = rec.ev_tx.send(Evt::ParkDone);
+            Ok(json!("parkfut"))
+        })
         .with_json_ctx("/big", move |ctx: &CallContext, v: Value| {
             let size = v.get("size").and_then(|s| s.as_u64()).unwrap_or(1) as usize;
             if let Some(rec) = rec_of_ctx(&s3, ctx) {
@@ -350,12 +443,32 @@ fn make_router(sh: &Arc<Shared>) -> Router {
 
 fn build_server(sh: &Arc<Shared>) -> WebSocketServer {
     let cfg = &sh.cfg;
-    let mut server = WebSocketServer::new(make_router(sh)).with_outbound_capacity(cfg.cap);
+    let mut server = WebSocketServer::new(make_router(sh));
+    if cfg.cap != 256 {
+        server = server.with_outbound_capacity(cfg.cap); // 256 = DEFAULT_OUTBOUND_CAPACITY: the builder is not called
+    }
+    server = match cfg.off {
+        '0' => server.with_offreader_limit(0),
+        '1' => server.with_offreader_limit(1),
+        '4' => server.with_offreader_limit(4),
+        _ => server,
+    };
+    if cfg.lim {
+        server = server.with_limits(cfg.limits());
+    }
+    // hooks run in registration order: `regpos` user callbacks of each kind come before the registry's own
+    for u in 0..cfg.reg_c() {
+        let s = sh.clone();
+        server = server.on_peer_connect(move |peer: PeerHandle| s.on_connect(&peer, u));
+    }
+    for u in 0..cfg.reg_d() {
+        let s = sh.clone();
+        server = server.on_peer_disconnect(move |id: PeerId| s.on_disconnect(id, u));
+    }
     if let Some(reg) = &sh.registry {
-        // registered first: its insert is connect hook 0 and its remove is disconnect hook 0
         server = server.with_peer_registry(reg.clone());
     }
-    for u in 0..cfg.nconn {
+    for u in cfg.reg_c()..cfg.nconn {
         let s = sh.clone();
         server = server.on_peer_connect(move |peer: PeerHandle| s.on_connect(&peer, u));
     }
@@ -364,16 +477,19 @@ fn build_server(sh: &Arc<Shared>) -> WebSocketServer {
         let u = cfg.nconn + j;
         server = server.on_peer_connect_with_handshake(move |peer: &PeerHandle, _hs: &HandshakeContext| s.on_connect(peer, u));
     }
-    for u in 0..cfg.ndisc {
+    for u in cfg.reg_d()..cfg.ndisc {
         let s = sh.clone();
         server = server.on_peer_disconnect(move |id: PeerId| s.on_disconnect(id, u));
     }
-    let s = sh.clone();
-    server.on_error(move |e| {
-        if matches!(e, repe::ConnectionError::Handshake(_)) {
-            s.hs_errors.fetch_add(1, Ordering::SeqCst);
-        }
-    })
+    for _ in 0..cfg.nerr {
+        let s = sh.clone();
+        server = server.on_error(move |e| {
+            if matches!(e, repe::ConnectionError::Handshake(_)) {
+                s.hs_errors.fetch_add(1, Ordering::SeqCst);
+            }
+        });
+    }
+    server
 }
 
 // ---------------------------------------------------------------------------------------------
@@ -438,6 +554,8 @@ struct ConnResult {
     problems: Vec<(String, String)>,
     notes: Vec<String>,
     accepted: bool,
+    /// what the parked handler reported by the time the connection was over (+ watchdog)
+    park: Option<bool>,
 }
 
 fn classify(b: &[u8]) -> String {
@@ -548,6 +666,7 @@ impl Group {
         let lock = self.establish.lock().await;
         *self.sh.establishing.lock().unwrap() = if scen.hsfail() { None } else { Some(rec.clone()) };
         let mut conn_task: Option<ConnTask> = None;
+        let mut echo_sent = false;
         let mut raw_tcp: Option<tokio::net::TcpStream> = None;
         let mut ws: Option<Ws> = None;
         match &self.ctl {
@@ -556,12 +675,30 @@ impl Group {
                 let (client_io, server_io) = tokio::io::duplex(buf);
                 let shared = shared.clone();
                 let token = ShutdownToken::new();
+                if scen.phase == "late" {
+                    // a connection served under a token that has been cancelled already
+                    token.cancel();
+                }
                 let t2 = token.clone();
                 let hs = cfg.hs();
+                let uri = format!("/repe{}", cfg.query_str());
+                let pr = cfg.pr && scen.phase != "connecting" && scen.phase != "late";
+                let (go_tx, go_rx) = tokio::sync::oneshot::channel::<()>();
                 let handle = self.server_rt.spawn(async move {
-                    let sws = shared.adopt_upgraded(server_io).await;
+                    let mut server_io = server_io;
+                    let sws = if pr {
+                        // the framework read past the upgrade request: hand the client's first frame over separately
+                        use tokio::io::AsyncReadExt;
+                        let _ = go_rx.await;
+                        let mut buffered = vec![0u8; 4096];
+                        let n = server_io.read(&mut buffered).await.unwrap_or(0);
+                        buffered.truncate(n);
+                        shared.adopt_upgraded_partially_read(server_io, buffered).await
+                    } else {
+                        shared.adopt_upgraded(server_io).await
+                    };
                     if hs {
-                        let req = repe::tokio_tungstenite::tungstenite::http::Request::builder().uri("/repe?client=7").header("authorization", "token").body(()).unwrap();
+                        let req = repe::tokio_tungstenite::tungstenite::http::Request::builder().uri(uri.as_str()).header("authorization", "token").body(()).unwrap();
                         let ctx = HandshakeContext::from_http_request(&req);
                         let _ = shared.serve_connection_with_cancel_and_handshake(sws, ctx, &t2).await;
                     } else {
@@ -570,7 +707,13 @@ impl Group {
                 });
                 conn_task = Some(ConnTask { handle, token });
                 let b: BoxIo = Box::new(client_io);
-                ws = Some(WebSocketStream::from_raw_socket(b, Role::Client, None).await);
+                let mut w: Ws = WebSocketStream::from_raw_socket(b, Role::Client, None).await;
+                if pr {
+                    w.send(request(1, "/echo", &json!(1), false)).await.map_err(|e| format!("send-early-echo {e}"))?;
+                    echo_sent = true;
+                }
+                let _ = go_tx.send(());
+                ws = Some(w);
             }
             _ => {
                 let addr = self.addr().unwrap();
@@ -625,10 +768,10 @@ impl Group {
                     }
                 }
             }
-            if matches!(cfg.entry, Entry::Listener | Entry::Drain) && scen.phase != "stall" {
+            if matches!(cfg.entry, Entry::Listener | Entry::Drain) && scen.phase != "stall" && cfg.nerr > 0 {
                 // built-in loops report the failure through on_error: wait for it (not part of C15; just a sync point)
                 let t0 = Instant::now();
-                while self.sh.hs_errors.load(Ordering::SeqCst) == before && t0.elapsed() < Duration::from_secs(5) {
+                while self.sh.hs_errors.load(Ordering::SeqCst) < before + cfg.nerr as u64 && t0.elapsed() < Duration::from_secs(5) {
                     tokio::time::sleep(Duration::from_millis(2)).await;
                 }
             }
@@ -639,7 +782,7 @@ impl Group {
         }
         if let Some(s) = raw_tcp.take() {
             let b: BoxIo = Box::new(s);
-            let url = format!("ws://{}/repe?client=7", self.addr().unwrap());
+            let url = format!("ws://{}/repe{}", self.addr().unwrap(), cfg.query_str());
             let (w, _resp) = tokio::time::timeout(WD, tokio_tungstenite::client_async(url, b)).await.map_err(|_| "ws-handshake-watchdog")?.map_err(|e| format!("ws-handshake {e}"))?;
             ws = Some(w);
         }
@@ -656,8 +799,10 @@ impl Group {
 
         // ---- bring the connection into the phase ----
         let phase = scen.phase.as_str();
-        if phase != "connecting" {
-            ws.send(request(1, "/echo", &json!(1), false)).await.map_err(|e| format!("send-echo {e}"))?;
+        if phase != "connecting" && phase != "late" {
+            if !echo_sent {
+                ws.send(request(1, "/echo", &json!(1), false)).await.map_err(|e| format!("send-echo {e}"))?;
+            }
             match read_frames(&mut ws, &mut res.wire, |c| c == "r1").await {
                 Ok(true) => {}
                 other => return Err(format!("echo-not-answered {:?}", other)),
@@ -668,6 +813,12 @@ impl Group {
                 ws.send(request(2, "/gate", &json!(null), false)).await.map_err(|e| format!("send-gate {e}"))?;
                 if !wait_evt(ev_rx, |e| matches!(e, Evt::InlineEntered)).await {
                     return Err("inline-handler-not-entered".into());
+                }
+            }
+            "parkedfut" => {
+                ws.send(request(2, "/parkfut", &json!(null), false)).await.map_err(|e| format!("send-parkfut {e}"))?;
+                if !wait_evt(ev_rx, |e| matches!(e, Evt::Parked)).await {
+                    return Err("parkfut-handler-not-entered".into());
                 }
             }
             "parked" => {
@@ -701,8 +852,8 @@ impl Group {
             }
             _ => {}
         }
-        if self.sh.registry.is_some() && phase != "connecting" {
-            res.live = if self.sh.registry_present(id, None) && (0..cfg.nconn + cfg.nctx).all(|u| self.sh.registry_present(id, Some(u))) { "p".into() } else { "a".into() };
+        if self.sh.registry.is_some() && phase != "connecting" && phase != "late" {
+            res.live = if self.sh.registry_full(id) { "p".into() } else { "a".into() };
         }
 
         // ---- the strike: all connections of the group at once ----
@@ -725,6 +876,10 @@ impl Group {
                 let _ = w.get_mut().write_all(&[0xFFu8; 24]).await;
                 let _ = w.get_mut().flush().await;
             }
+            "toobig" => {
+                // larger than the server's inbound message limit (1 MiB in `lim` groups): tungstenite refuses it
+                let _ = tokio::time::timeout(WD, ws.as_mut().unwrap().send(WsMsg::Binary(vec![0u8; 3 << 20]))).await;
+            }
             "malformed" => {
                 let _ = ws.as_mut().unwrap().send(WsMsg::Binary(vec![1, 2, 3, 4, 5, 6, 7, 8, 9, 10])).await;
             }
@@ -740,7 +895,7 @@ impl Group {
             }
             "hpanic" => {
                 if phase != "inline" {
-                    let _ = ws.as_mut().unwrap().send(request(3, "/panic", &json!(null), false)).await;
+                    let _ = ws.as_mut().unwrap().send(request(3, "/panic", &json!({ "k": scen.payload.to_string() }), false)).await;
                 }
             }
             "cpanic" => {}
@@ -782,11 +937,20 @@ impl Group {
         if !ended && !wait_evt(ev_rx, |e| matches!(e, Evt::Ended)).await {
             res.problems.push(("lifecycle.disconnect.missing".into(), format!("last disconnect callback not invoked within {:?} after the connection ended ({} / {})", WD, scen.phase, scen.cause)));
         }
-        if phase == "parked" {
+        if phase == "parked" || phase == "parkedfut" {
             rec.park_gate.open();
-            if !wait_evt(ev_rx, |e| matches!(e, Evt::ParkDone)).await {
+            // the handler's verdict is the observable (its ParkDone event may already have been consumed: a handler
+            // waiting on `cancelled()` finishes before the disconnect callbacks do)
+            let t0 = Instant::now();
+            while rec.park.lock().unwrap().is_none() && t0.elapsed() < WD {
+                tokio::time::sleep(Duration::from_millis(1)).await;
+            }
+            let verdict = *rec.park.lock().unwrap();
+            if verdict.is_none() {
                 res.notes.push("park-handler-did-not-finish".into());
             }
+            // freeze it: the connection is over; a handler that wakes later than the watchdog was not woken
+            res.park = Some(verdict.unwrap_or(false));
         }
         if let Some(ct) = conn_task {
             // embedder-owned task: its completion is a hard synchronisation point
@@ -795,6 +959,12 @@ impl Group {
             }
         }
         if self.sh.registry.is_some() {
+            // the registry's own remove may be the LAST disconnect hook (registered after every user callback):
+            // wait for the eviction as an event
+            let t0 = Instant::now();
+            while !self.sh.registry_gone(id) && t0.elapsed() < WD {
+                tokio::time::sleep(Duration::from_millis(1)).await;
+            }
             res.after = if self.sh.registry_gone(id) { "a".into() } else { "p".into() };
         }
         Ok(())
@@ -813,6 +983,7 @@ fn start_group(cfg: GroupCfg, n: usize, server_rt: &tokio::runtime::Runtime) -> 
     let server = build_server(&sh);
     let (fired_tx, fired_rx) = tokio::sync::watch::channel(false);
     let mut shutdown_tx = None;
+    let mut ready_shutdown = None;
     let h = server_rt.handle().clone();
     let bind = || {
         let l = std::net::TcpListener::bind("127.0.0.1:0").expect("bind");
@@ -823,9 +994,24 @@ fn start_group(cfg: GroupCfg, n: usize, server_rt: &tokio::runtime::Runtime) -> 
     let ctl = match cfg.entry {
         Entry::Listener => {
             let (l, addr) = bind();
+            let with_shutdown = cfg.mode == 's';
+            let (tx, rx) = tokio::sync::oneshot::channel::<()>();
+            if with_shutdown {
+                // fired when every connection of the group is in its phase: the accept loop returns, the
+                // already-accepted connections are detached and must go on unaffected
+                ready_shutdown = Some(tx);
+            }
             let task = h.spawn(async move {
                 let l = tokio::net::TcpListener::from_std(l).unwrap();
-                let _ = server.serve_listener(l, "/repe").await;
+                if with_shutdown {
+                    let _ = server
+                        .serve_listener_with_shutdown(l, "/repe", async {
+                            let _ = rx.await;
+                        })
+                        .await;
+                } else {
+                    let _ = server.serve_listener(l, "/repe").await;
+                }
             });
             ServerCtl::Listener { task, addr }
         }
@@ -833,7 +1019,11 @@ fn start_group(cfg: GroupCfg, n: usize, server_rt: &tokio::runtime::Runtime) -> 
             let (l, addr) = bind();
             let (tx, rx) = tokio::sync::oneshot::channel::<()>();
             shutdown_tx = Some(tx);
-            let timeout = if cfg.mode == 'a' { Duration::ZERO } else { Duration::from_secs(60) };
+            let timeout = match cfg.mode {
+                'a' => Duration::ZERO,
+                't' => Duration::from_millis(30),
+                _ => Duration::from_secs(60),
+            };
             let task = h.spawn(async move {
                 let l = tokio::net::TcpListener::from_std(l).unwrap();
                 let _ = server
@@ -855,6 +1045,7 @@ fn start_group(cfg: GroupCfg, n: usize, server_rt: &tokio::runtime::Runtime) -> 
             let (tx, rx) = unbounded_channel::<ConnTask>();
             let with_cancel = cfg.entry == Entry::ConnCancel;
             let hs = cfg.hs();
+            let (stat, lim, limits) = (cfg.static_accept, cfg.lim, cfg.limits());
             let task = h.spawn(async move {
                 let l = tokio::net::TcpListener::from_std(l).unwrap();
                 loop {
@@ -864,14 +1055,15 @@ fn start_group(cfg: GroupCfg, n: usize, server_rt: &tokio::runtime::Runtime) -> 
                     let t2 = token.clone();
                     let handle = tokio::spawn(async move {
                         if hs {
-                            if let Ok((ws, ctx)) = shared.accept_with_handshake(stream, "/repe").await {
+                            let acc = if stat && lim { WebSocketServer::accept_with_handshake_and_limits(stream, "/repe", limits).await } else if stat { WebSocketServer::accept_with_handshake(stream, "/repe").await } else { shared.accept_with_handshake(stream, "/repe").await };
+                            if let Ok((ws, ctx)) = acc {
                                 if with_cancel {
                                     let _ = shared.serve_connection_with_cancel_and_handshake(ws, ctx, &t2).await;
                                 } else {
                                     let _ = shared.serve_connection_with_handshake(ws, ctx).await;
                                 }
                             }
-                        } else if let Ok(ws) = shared.accept(stream, "/repe").await {
+                        } else if let Ok(ws) = if stat && lim { WebSocketServer::accept_with_limits(stream, "/repe", limits).await } else if stat { WebSocketServer::accept(stream, "/repe").await } else { shared.accept(stream, "/repe").await } {
                             if with_cancel {
                                 let _ = shared.serve_connection_with_cancel(ws, &t2).await;
                             } else {
@@ -892,7 +1084,7 @@ fn start_group(cfg: GroupCfg, n: usize, server_rt: &tokio::runtime::Runtime) -> 
     Arc::new(Group {
         sh,
         ctl,
-        ready: Strike { n, arrived: Mutex::new(0), shutdown: Mutex::new(None), fired_tx: rtx, fired_rx: rrx },
+        ready: Strike { n, arrived: Mutex::new(0), shutdown: Mutex::new(ready_shutdown), fired_tx: rtx, fired_rx: rrx },
         strike: Strike { n, arrived: Mutex::new(0), shutdown: Mutex::new(shutdown_tx), fired_tx, fired_rx },
         establish: tokio::sync::Mutex::new(()),
         server_rt: h,
@@ -912,15 +1104,26 @@ fn oracles(cfg: &GroupCfg, scen: &Scen, trace: &[String], res: &ConnResult, inl:
         if item.starts_with('c') {
             *ccount.entry(u).or_default() += 1;
             last_c = Some(pos);
-            if parts.get(1) == Some(&"a") {
-                out.push(("lifecycle.registry.absent_while_connected".into(), format!("inside connect callback {u} the registry does not resolve the peer / its alias; trace {trace:?}")));
+            if parts.get(1) == Some(&"a") && u >= cfg.reg_c() {
+                out.push(("lifecycle.registry.absent_while_connected".into(), format!("inside connect callback {u} (registered after with_peer_registry) the registry does not resolve the peer / its alias; trace {trace:?}")));
             }
         } else {
             *dcount.entry(u).or_default() += 1;
             first_d.get_or_insert(pos);
+            // (only if the registry's insert ran at all: a connect-callback panic before it leaves nothing to evict)
+            let inserted = !(scen.cause == "cpanic" && scen.at.is_some_and(|a| a < cfg.reg_c()));
+            if parts.get(2) == Some(&"a") && u < cfg.reg_d() && inserted {
+                out.push(("lifecycle.registry.evicted_before_earlier_disconnect_callback".into(), format!("disconnect callback {u} was registered before with_peer_registry, yet inside it the peer or its aliases are already gone; trace {trace:?}")));
+            }
             if parts.get(1) == Some(&"0") {
                 out.push(("lifecycle.order.hook_before_cancel".into(), format!("disconnect callback {u} ran while a parked handler still read is_cancelled() == false; trace {trace:?}")));
             }
+        }
+    }
+    let idxs = |c: char| -> Vec<usize> { trace.iter().filter(|i| i.starts_with(c)).filter_map(|i| i[1..].split(':').next().and_then(|x| x.parse().ok())).collect() };
+    for (kind, v) in [("connect", idxs('c')), ("disconnect", idxs('d'))] {
+        if v.windows(2).any(|w| w[0] > w[1]) {
+            out.push(("lifecycle.order.callbacks_out_of_registration_order".into(), format!("{kind} callbacks ran in the order {v:?}, not in registration order (plain connect callbacks first, then the handshake-aware ones); trace {trace:?}")));
         }
     }
     if scen.hsfail() {
@@ -937,6 +1140,14 @@ fn oracles(cfg: &GroupCfg, scen: &Scen, trace: &[String], res: &ConnResult, inl:
             out.push(("lifecycle.connect.duplicate".into(), format!("connect callback {u} invoked {n} times; trace {trace:?}")));
         }
     }
+    // every connect callback that fires for this connection (plain ones, then the handshake-aware ones when a
+    // handshake was handed over) runs — up to and including the one that panics
+    let last = if scen.cause == "cpanic" { scen.at.map(|a| a + 1).unwrap_or(0) } else { cfg.nconn + cfg.nctx };
+    for u in 0..last {
+        if ccount.get(&u).copied().unwrap_or(0) == 0 {
+            out.push(("lifecycle.connect.missing".into(), format!("connect callback {u} was never invoked ({} plain + {} handshake-aware expected); trace {trace:?}", cfg.nconn, cfg.nctx)));
+        }
+    }
     for u in 0..cfg.ndisc {
         match dcount.get(&u).copied().unwrap_or(0) {
             1 => {}
@@ -949,7 +1160,9 @@ fn oracles(cfg: &GroupCfg, scen: &Scen, trace: &[String], res: &ConnResult, inl:
             out.push(("lifecycle.order.connect_after_disconnect".into(), format!("a connect callback ran after a disconnect callback; trace {trace:?}")));
         }
     }
-    if park == Some(false) {
+    if park == Some(false) && scen.phase == "parkedfut" {
+        out.push(("lifecycle.handler.cancelled_future_not_woken".into(), "an off-reader handler waiting on ctx.cancelled() had not been woken 25 s after the last disconnect callback".into()));
+    } else if park == Some(false) {
         out.push(("lifecycle.handler.no_cancel_after_end".into(), "a parked off-reader handler read is_cancelled() == false after the last disconnect callback".into()));
     }
     if inl == Some(false) && cancel_cause(cfg, &scen.cause) {
@@ -1033,7 +1246,7 @@ async fn run_group(cfg: GroupCfg, scens: Vec<Scen>, server_rt: &tokio::runtime::
         for ((sc, res), (rec, line)) in scens.iter().zip(&results).zip(recs.iter().zip(&lines)) {
             let trace = rec.trace.lock().unwrap().clone();
             let inl = *rec.inl.lock().unwrap();
-            let park = *rec.park.lock().unwrap();
+            let park = res.park;
             let obs = if sc.hsfail() {
                 format!("{} hooks={}", sc.idx, trace.len() as u64 + unknown)
             } else {
@@ -1077,14 +1290,17 @@ async fn run_group(cfg: GroupCfg, scens: Vec<Scen>, server_rt: &tokio::runtime::
 // ---------------------------------------------------------------------------------------------
 // generation
 // ---------------------------------------------------------------------------------------------
-const PHASES: [&str; 5] = ["idle", "inline", "parked", "queued", "connecting"];
+const PHASES: [&str; 6] = ["idle", "inline", "parked", "parkedfut", "queued", "connecting"];
 const CAUSES: [&str; 11] = ["close", "drop", "proto", "protog", "malformed", "malformeds", "malformedl", "hpanic", "cpanic", "cancel", "abort"];
 
 fn fill_scen(rng: &mut Rng, cfg: &GroupCfg, idx: String, phase: &str, cause: &str) -> Scen {
     let nuser = cfg.nconn + cfg.nctx;
     if cause == "hsfail" {
-        return Scen { idx, phase: phase.into(), cause: cause.into(), notif: vec![], at: None, nreq: 0 };
+        return Scen { idx, phase: phase.into(), cause: cause.into(), notif: vec![], at: None, nreq: 0, payload: ' ' };
     }
+    // (only while the reader is reading: a 3 MiB send to a reader that is blocked or held would never complete)
+    let cause = if cfg.lim && cause == "protog" && matches!(phase, "idle" | "parked" | "parkedfut") && rng.chance(1, 2) { "toobig" } else { cause };
+    let payload = if cause == "cpanic" || cause == "hpanic" { *rng.pick(&[' ', 's', 'n']) } else { ' ' };
     // never more notifies than the channel holds: `try_send` must not depend on the writer's progress
     let mut budget = cfg.cap.min(6);
     let notif: Vec<usize> = (0..nuser)
@@ -1096,7 +1312,7 @@ fn fill_scen(rng: &mut Rng, cfg: &GroupCfg, idx: String, phase: &str, cause: &st
         .collect();
     let at = if phase == "connecting" { Some(rng.below(nuser as u64) as usize) } else { None };
     let nreq = if phase == "queued" { 12 } else { 0 };
-    Scen { idx, phase: phase.into(), cause: cause.into(), notif, at, nreq }
+    Scen { idx, phase: phase.into(), cause: cause.into(), notif, at, nreq, payload }
 }
 
 fn random_cfg(rng: &mut Rng, g: usize, entry: Entry, mode: char, queued: bool) -> GroupCfg {
@@ -1106,17 +1322,28 @@ fn random_cfg(rng: &mut Rng, g: usize, entry: Entry, mode: char, queued: bool) -
         Entry::Listener | Entry::Drain => true,
         _ => nctx_reg == 0 || !rng.chance(1, 4),
     };
-    GroupCfg {
+    let mut cfg = GroupCfg {
         g,
         entry,
         nconn: rng.range(1, 3) as usize,
         nctx: if hs { nctx_reg } else { 0 },
         nctx_reg,
         ndisc: rng.range(1, 3) as usize,
-        reg: rng.chance(1, 2),
-        cap: if queued { 2 } else { 64 },
+        reg: false,
+        regpos: 0,
+        cap: if queued { 2 } else { *rng.pick(&[1usize, 3, 64, 64, 256]) },
         mode,
-    }
+        off: *rng.pick(&['d', 'd', '0', '1', '4']),
+        nerr: *rng.pick(&[0usize, 1, 1, 2]),
+        static_accept: rng.chance(1, 2),
+        query: rng.below(3) as u8,
+        pr: entry == Entry::Adopt && rng.chance(1, 2),
+        lim: rng.chance(1, 2),
+    };
+    cfg.reg = rng.chance(1, 2);
+    // half of the registry groups: some user callbacks are registered before `with_peer_registry`
+    cfg.regpos = if cfg.reg && rng.chance(1, 2) { rng.range(1, 3) as usize } else { 0 };
+    cfg
 }
 
 struct Plan {
@@ -1130,7 +1357,11 @@ fn plan(rng: &mut Rng, thorough: bool) -> Vec<Plan> {
     let rounds = if thorough { 40 } else { 4 };
     for round in 0..rounds {
         for entry in Entry::all() {
-            let modes: &[char] = if entry == Entry::Drain { &['c', 'a'] } else { &['-'] };
+            let modes: &[char] = match entry {
+                Entry::Drain => &['c', 'a', 't'],
+                Entry::Listener => &['-', 's'],
+                _ => &['-'],
+            };
             for &mode in modes {
                 // every valid (phase × cause) of this entry, shuffled, cut into groups of varying size
                 let mut combos: Vec<(String, String)> = Vec::new();
@@ -1141,11 +1372,14 @@ fn plan(rng: &mut Rng, thorough: bool) -> Vec<Plan> {
                         }
                     }
                 }
+                if entry == Entry::Adopt {
+                    combos.push(("late".to_string(), "cancel".to_string()));
+                }
                 if entry != Entry::Adopt {
                     for kind in ["path", "garbage", "eof"] {
                         combos.push((kind.to_string(), "hsfail".to_string()));
                     }
-                    if entry == Entry::Drain && mode == 'a' {
+                    if entry == Entry::Drain && (mode == 'a' || mode == 't') {
                         combos.push(("stall".to_string(), "hsfail".to_string()));
                     }
                 }
@@ -1202,6 +1436,9 @@ fn parse_replay(ops: &[String]) -> Vec<AnyPlan> {
                     p.steps.push(step);
                 }
             }
+            Some("burst") if w.len() >= 5 => {
+                plans.push(AnyPlan::Burst(BurstPlan { idx: w[1].into(), entry: Entry::parse(w[2]).expect("entry"), n: w[3].parse().unwrap_or(16), end: w[4].into(), reps: 80 }));
+            }
             Some("hs") if w.len() >= 5 => {
                 let cfg = if w[2] == "-" { String::new() } else { w[2].to_string() };
                 match plans.last_mut() {
@@ -1220,13 +1457,29 @@ fn parse_replay(ops: &[String]) -> Vec<AnyPlan> {
                     cap: w[7].parse().unwrap(),
                     mode: w[8].chars().next().unwrap_or('-'),
                     nctx_reg: w[9].parse().unwrap(),
+                    regpos: w.get(10).and_then(|x| x.parse().ok()).unwrap_or(0),
+                    off: 'd',
+                    nerr: 1,
+                    static_accept: false,
+                    query: 0,
+                    pr: false,
+                    lim: false,
                 };
+                let mut cfg = cfg;
+                if let Some(o) = w.get(11) {
+                    cfg.parse_opts(o);
+                }
                 plans.push(AnyPlan::Life(Plan { cfg, scens: vec![] }));
             }
             Some("scen") if w.len() >= 8 => {
                 if let Some(AnyPlan::Life(p)) = plans.last_mut() {
                     let notif = if w[4] == "-" { vec![] } else { w[4].split(',').map(|x| x.parse().unwrap_or(0)).collect() };
-                    p.scens.push(Scen { idx: w[1].into(), phase: w[2].into(), cause: w[3].into(), notif, at: w[5].parse().ok(), nreq: w[6].parse().unwrap_or(0) });
+                    let (cause, payload) = match w[3] {
+                        "cpanics" | "hpanics" => (&w[3][..6], 's'),
+                        "cpanicn" | "hpanicn" => (&w[3][..6], 'n'),
+                        c => (c, ' '),
+                    };
+                    p.scens.push(Scen { idx: w[1].into(), phase: w[2].into(), cause: cause.into(), notif, at: w[5].parse().ok(), nreq: w[6].parse().unwrap_or(0), payload });
                 }
             }
             _ => {}
@@ -1381,37 +1634,41 @@ async fn rx_wait(rx: &mut UnboundedReceiver<RxEvt>, closed: &mut BTreeMap<usize,
 async fn run_rx(plan: RxPlan, server_rt: &tokio::runtime::Runtime, out: &Mutex<Out>) {
     let (ev_tx, mut ev_rx) = unbounded_channel();
     let rx = Arc::new(Rx { reg: PeerRegistry::new(), establishing: Mutex::new(None), conn_of: Mutex::new(HashMap::new()), id_of: Mutex::new(HashMap::new()), ev: ev_tx, unknown: AtomicU64::new(0) });
-    let server = rx_server(&rx);
+    // TWO server instances feed the one registry (documented: "two WebSocketServers sharing one registry mint
+    // non-colliding ids"); connection c is served by server c % 2
     let h = server_rt.handle().clone();
-    let mut addr = None;
-    let mut shared: Option<SharedWebSocketServer> = None;
-    let mut server_task = None;
-    if plan.entry != Entry::Adopt {
-        let l = std::net::TcpListener::bind("127.0.0.1:0").expect("bind");
-        l.set_nonblocking(true).unwrap();
-        addr = Some(l.local_addr().unwrap());
-        if plan.entry == Entry::Listener {
-            server_task = Some(h.spawn(async move {
-                let l = tokio::net::TcpListener::from_std(l).unwrap();
-                let _ = server.serve_listener(l, "/repe").await;
-            }));
+    let mut addrs: Vec<std::net::SocketAddr> = Vec::new();
+    let mut shareds: Vec<SharedWebSocketServer> = Vec::new();
+    let mut server_tasks = Vec::new();
+    for _ in 0..2 {
+        let server = rx_server(&rx);
+        if plan.entry != Entry::Adopt {
+            let l = std::net::TcpListener::bind("127.0.0.1:0").expect("bind");
+            l.set_nonblocking(true).unwrap();
+            addrs.push(l.local_addr().unwrap());
+            if plan.entry == Entry::Listener {
+                server_tasks.push(h.spawn(async move {
+                    let l = tokio::net::TcpListener::from_std(l).unwrap();
+                    let _ = server.serve_listener(l, "/repe").await;
+                }));
+            } else {
+                let sh = server.into_shared();
+                server_tasks.push(h.spawn(async move {
+                    let l = tokio::net::TcpListener::from_std(l).unwrap();
+                    loop {
+                        let Ok((stream, _)) = l.accept().await else { break };
+                        let sh = sh.clone();
+                        tokio::spawn(async move {
+                            if let Ok(ws) = sh.accept(stream, "/repe").await {
+                                let _ = sh.serve_connection(ws).await;
+                            }
+                        });
+                    }
+                }));
+            }
         } else {
-            let sh = server.into_shared();
-            server_task = Some(h.spawn(async move {
-                let l = tokio::net::TcpListener::from_std(l).unwrap();
-                loop {
-                    let Ok((stream, _)) = l.accept().await else { break };
-                    let sh = sh.clone();
-                    tokio::spawn(async move {
-                        if let Ok(ws) = sh.accept(stream, "/repe").await {
-                            let _ = sh.serve_connection(ws).await;
-                        }
-                    });
-                }
-            }));
+            shareds.push(server.into_shared());
         }
-    } else {
-        shared = Some(server.into_shared());
     }
 
     let reset = format!("rx {}.r reset {}", plan.g, plan.entry.name());
@@ -1439,7 +1696,7 @@ async fn run_rx(plan: RxPlan, server_rt: &tokio::runtime::Runtime, out: &Mutex<O
             match step {
                 RxStep::Open { c, keys } => {
                     *rx.establishing.lock().unwrap() = Some((*c, keys.clone()));
-                    let ws: Ws = if let Some(sh) = &shared {
+                    let ws: Ws = if let Some(sh) = shareds.get(*c % 2) {
                         let (cio, sio) = tokio::io::duplex(64 * 1024);
                         let sh = sh.clone();
                         h.spawn(async move {
@@ -1449,9 +1706,10 @@ async fn run_rx(plan: RxPlan, server_rt: &tokio::runtime::Runtime, out: &Mutex<O
                         let b: BoxIo = Box::new(cio);
                         WebSocketStream::from_raw_socket(b, Role::Client, None).await
                     } else {
-                        let s = tokio::time::timeout(WD, tokio::net::TcpStream::connect(addr.unwrap())).await.map_err(|_| "tcp-connect-watchdog")?.map_err(|e| e.to_string())?;
+                        let addr = addrs[*c % 2];
+                        let s = tokio::time::timeout(WD, tokio::net::TcpStream::connect(addr)).await.map_err(|_| "tcp-connect-watchdog")?.map_err(|e| e.to_string())?;
                         let b: BoxIo = Box::new(s);
-                        let (w, _) = tokio::time::timeout(WD, tokio_tungstenite::client_async(format!("ws://{}/repe", addr.unwrap()), b)).await.map_err(|_| "ws-handshake-watchdog")?.map_err(|e| e.to_string())?;
+                        let (w, _) = tokio::time::timeout(WD, tokio_tungstenite::client_async(format!("ws://{}/repe", addr), b)).await.map_err(|_| "ws-handshake-watchdog")?.map_err(|e| e.to_string())?;
                         w
                     };
                     clients.insert(*c, ws);
@@ -1571,7 +1829,7 @@ async fn run_rx(plan: RxPlan, server_rt: &tokio::runtime::Runtime, out: &Mutex<O
     }
     // teardown
     drop(clients);
-    if let Some(t) = server_task {
+    for t in server_tasks {
         t.abort();
     }
     let mut o = out.lock().unwrap();
@@ -1806,10 +2064,196 @@ fn plan_hs() -> Vec<HsPlan> {
         .collect()
 }
 
+// ---------------------------------------------------------------------------------------------
+// bursts (`burst` op lines): n connections entering `handle_connection_with_config` at the same instant on
+// a multi-thread runtime (released through a barrier); every connection must get its own identity
+// ---------------------------------------------------------------------------------------------
+struct BurstPlan {
+    idx: String,
+    entry: Entry,
+    n: usize,
+    end: String,
+    /// a replayed burst is repeated until it fails (the race it provokes is a matter of instructions)
+    reps: usize,
+}
+impl BurstPlan {
+    fn line(&self) -> String {
+        format!("burst {} {} {} {}", self.idx, self.entry.name(), self.n, self.end)
+    }
+}
+
+async fn run_burst(plan: BurstPlan, server_rt: &tokio::runtime::Runtime, out: &Mutex<Out>) {
+    let mut last = (String::new(), Vec::new());
+    for _ in 0..plan.reps.max(1) {
+        last = burst_once(&plan, server_rt).await;
+        if !last.1.is_empty() {
+            break;
+        }
+    }
+    let (obs, fails) = last;
+    let mut o = out.lock().unwrap();
+    let line = plan.line();
+    let mut seen = std::collections::BTreeSet::new();
+    for (sig, detail) in fails {
+        if seen.insert(sig.clone()) {
+            o.oracle_fail(&sig, &format!("[{line}] {detail}"), &[line.clone()]);
+        }
+    }
+    o.count(&format!("burst.{}.{}", plan.entry.name(), plan.n));
+    o.case(&line, &obs, true);
+}
+
+async fn burst_once(plan: &BurstPlan, server_rt: &tokio::runtime::Runtime) -> (String, Vec<(String, String)>) {
+    let reg = PeerRegistry::new();
+    let connects: Arc<Mutex<HashMap<u64, u32>>> = Default::default();
+    let discs: Arc<Mutex<HashMap<u64, u32>>> = Default::default();
+    let total_disc = Arc::new(AtomicU64::new(0));
+    let (c1, d1, td) = (connects.clone(), discs.clone(), total_disc.clone());
+    let router = Router::new().with_json_ctx("/whoami", |ctx: &CallContext, _v: Value| Ok(json!(ctx.peer().map(|p| p.peer_id().0))));
+    let server = WebSocketServer::new(router)
+        .with_peer_registry(reg.clone())
+        .on_peer_connect(move |p: PeerHandle| {
+            *c1.lock().unwrap().entry(p.peer_id().0).or_default() += 1;
+        })
+        .on_peer_disconnect(move |id: PeerId| {
+            *d1.lock().unwrap().entry(id.0).or_default() += 1;
+            td.fetch_add(1, Ordering::SeqCst);
+        });
+    let n = plan.n;
+    let h = server_rt.handle().clone();
+    let mut server_tasks = Vec::new();
+    let mut listener_task = None;
+    let mut clients: Vec<tokio::task::JoinHandle<Result<(Ws, Option<u64>), String>>> = Vec::new();
+    if plan.entry == Entry::Adopt {
+        let shared = server.into_shared();
+        let barrier = Arc::new(tokio::sync::Barrier::new(n));
+        for _ in 0..n {
+            let (cio, sio) = tokio::io::duplex(64 * 1024);
+            let (sh, b) = (shared.clone(), barrier.clone());
+            server_tasks.push(h.spawn(async move {
+                b.wait().await;
+                let ws = sh.adopt_upgraded(sio).await;
+                let _ = sh.serve_connection(ws).await;
+            }));
+            clients.push(tokio::spawn(async move {
+                let b: BoxIo = Box::new(cio);
+                let mut ws: Ws = WebSocketStream::from_raw_socket(b, Role::Client, None).await;
+                let v = rx_call(&mut ws, 1, "/whoami", &json!(null)).await;
+                Ok((ws, v.ok().and_then(|v| v.as_u64())))
+            }));
+        }
+    } else {
+        let l = std::net::TcpListener::bind("127.0.0.1:0").expect("bind");
+        l.set_nonblocking(true).unwrap();
+        let addr = l.local_addr().unwrap();
+        listener_task = Some(h.spawn(async move {
+            let l = tokio::net::TcpListener::from_std(l).unwrap();
+            let _ = server.serve_listener(l, "/repe").await;
+        }));
+        let barrier = Arc::new(tokio::sync::Barrier::new(n));
+        for _ in 0..n {
+            let b = barrier.clone();
+            clients.push(tokio::spawn(async move {
+                let s = tokio::time::timeout(WD, tokio::net::TcpStream::connect(addr)).await.map_err(|_| "tcp-connect-watchdog")?.map_err(|e| e.to_string())?;
+                b.wait().await;
+                let bx: BoxIo = Box::new(s);
+                let (mut ws, _) = tokio::time::timeout(WD, tokio_tungstenite::client_async(format!("ws://{addr}/repe"), bx)).await.map_err(|_| "ws-handshake-watchdog")?.map_err(|e| e.to_string())?;
+                let v = rx_call(&mut ws, 1, "/whoami", &json!(null)).await;
+                Ok((ws, v.ok().and_then(|v| v.as_u64())))
+            }));
+        }
+    }
+    let mut conns: Vec<(Ws, Option<u64>)> = Vec::new();
+    let mut broken = 0usize;
+    for c in clients {
+        match c.await {
+            Ok(Ok(x)) => conns.push(x),
+            _ => broken += 1,
+        }
+    }
+    let mut fails: Vec<(String, String)> = Vec::new();
+    let ids: Vec<u64> = conns.iter().filter_map(|c| c.1).collect();
+    let unanswered = conns.iter().filter(|c| c.1.is_none()).count() + broken;
+    let mut sorted = ids.clone();
+    sorted.sort();
+    let mut dups: Vec<u64> = sorted.windows(2).filter(|w| w[0] == w[1]).map(|w| w[0]).collect();
+    dups.extend(connects.lock().unwrap().iter().filter(|(_, c)| **c > 1).map(|(id, _)| *id));
+    dups.sort();
+    dups.dedup();
+    if !dups.is_empty() {
+        fails.push(("lifecycle.peer_id.duplicate".into(), format!("{} connections accepted at the same instant: peer id(s) {:?} were handed to more than one live connection", n, dups)));
+    }
+    if unanswered > 0 {
+        fails.push(("lifecycle.burst.connection_lost".into(), format!("{unanswered} of {n} concurrently accepted connections died before answering their first request")));
+    }
+    let present = ids.iter().filter(|id| reg.get(PeerId(**id)).map(|h| h.peer_id().0) == Some(**id)).count();
+    if present != ids.len() || reg.len() != n {
+        fails.push(("lifecycle.registry.absent_while_connected".into(), format!("{} live connections, {} of their ids resolve, registry holds {} peers", n, present, reg.len())));
+    }
+    // end them all
+    let mut k = 0;
+    for (mut ws, _) in conns {
+        k += 1;
+        if plan.end == "close" || (plan.end == "mix" && k % 2 == 0) {
+            let _ = ws.send(WsMsg::Close(None)).await;
+        }
+        drop(ws);
+    }
+    let t0 = Instant::now();
+    while (total_disc.load(Ordering::SeqCst) as usize) < n - broken && t0.elapsed() < WD {
+        tokio::time::sleep(Duration::from_millis(1)).await;
+    }
+    for t in server_tasks {
+        let _ = tokio::time::timeout(WD, t).await;
+    }
+    let t1 = Instant::now();
+    while reg.len() > 0 && t1.elapsed() < Duration::from_millis(500) {
+        tokio::time::sleep(Duration::from_millis(1)).await;
+    }
+    tokio::time::sleep(Duration::from_millis(5)).await;
+    if let Some(t) = listener_task {
+        t.abort();
+    }
+    let dmap = discs.lock().unwrap().clone();
+    let once = ids.iter().filter(|id| dmap.get(id).copied() == Some(1)).count();
+    let twice: Vec<u64> = dmap.iter().filter(|(_, c)| **c > 1).map(|(id, _)| *id).collect();
+    if !twice.is_empty() {
+        fails.push(("lifecycle.disconnect.duplicate".into(), format!("disconnect callbacks ran more than once for peer id(s) {:?}", twice)));
+    } else if once != ids.len() {
+        fails.push(("lifecycle.disconnect.missing".into(), format!("{} connections ended, {} ids saw exactly one disconnect callback", ids.len(), once)));
+    }
+    if reg.len() != 0 {
+        fails.push(("lifecycle.registry.present_after_disconnect".into(), format!("all connections are over, the registry still holds {} peers", reg.len())));
+    }
+    let obs = format!(
+        "{} ids={} live={}/{} disc={}x1 after={}",
+        plan.idx,
+        if dups.is_empty() && unanswered == 0 { "distinct" } else { "collide" },
+        present,
+        n,
+        once,
+        if reg.len() == 0 { "empty".to_string() } else { reg.len().to_string() }
+    );
+    (obs, fails)
+}
+
+fn plan_burst(rng: &mut Rng, thorough: bool) -> Vec<BurstPlan> {
+    let mut v = Vec::new();
+    let (na, nl) = if thorough { (400, 40) } else { (60, 8) };
+    for i in 0..na {
+        v.push(BurstPlan { idx: format!("b{i}"), entry: Entry::Adopt, n: *rng.pick(&[16usize, 24, 32]), end: rng.pick(&["drop", "close", "mix"]).to_string(), reps: 1 });
+    }
+    for i in 0..nl {
+        v.push(BurstPlan { idx: format!("bl{i}"), entry: Entry::Listener, n: 32, end: rng.pick(&["drop", "close", "mix"]).to_string(), reps: 1 });
+    }
+    v
+}
+
 enum AnyPlan {
     Life(Plan),
     Rx(RxPlan),
     Hs(HsPlan),
+    Burst(BurstPlan),
 }
 
 fn main() {
@@ -1824,6 +2268,7 @@ fn main() {
             // registry scripts first (cheap), then the lifecycle matrix
             let nrx = if args.thorough() { 600 } else { 60 };
             let mut v: Vec<AnyPlan> = plan_hs().into_iter().map(AnyPlan::Hs).collect();
+            v.extend(plan_burst(&mut rng, args.thorough()).into_iter().map(AnyPlan::Burst));
             v.extend((0..nrx).map(|i| AnyPlan::Rx(plan_rx(&mut rng, 100_000 + i))));
             v.extend(plan(&mut rng, args.thorough()).into_iter().map(AnyPlan::Life));
             v
@@ -1843,13 +2288,18 @@ fn main() {
                 AnyPlan::Life(p) => {
                     {
                         let mut o = out.lock().unwrap();
-                        o.begin(&p.cfg.line());
+                        o.begin(&format!("{}\n{}", p.cfg.line(), p.scens.iter().map(|s| s.line(0)).collect::<Vec<_>>().join("\n")));
                         o.count(&format!("group.size.{}", p.scens.len()));
                     }
+                    let (t0, gl) = (Instant::now(), p.cfg.line());
                     run_group(p.cfg, p.scens, &server_rt, &out, settle).await;
+                    if std::env::var("LC_TRACE").is_ok() && t0.elapsed() > Duration::from_secs(2) {
+                        eprintln!("SLOW {:?} {}", t0.elapsed(), gl);
+                    }
                 }
                 AnyPlan::Rx(p) => run_rx(p, &server_rt, &out).await,
                 AnyPlan::Hs(p) => run_hs(p, &server_rt, &out).await,
+                AnyPlan::Burst(p) => run_burst(p, &server_rt, &out).await,
             }
             // a failing input has been found and recorded with its replay: no need to wait out the watchdogs
             // of every later group
